@@ -41,12 +41,24 @@ def render_source(d: Defn) -> str:
             k += 1
         if j < n:
             i, f = d.states[j]
-            lines.append(f"    s{j} = State(initial={i}, final={f})")
+            vals = _values(d)
+            lines.append(f"    s{j} = State(initial={i}, final={f})" if vals is None else
+                         f"    s{j} = State(value={vals[j]!r}, initial={i}, final={f})")
     for s in d.loose:
         lines.append("    " + tr(s))
     if len(lines) == 1:
         lines.append("    pass")
     return "\n".join(lines) + "\n"
+
+
+def _values(d: Defn):
+    """explicit state values for this definition, or None: in a quarter of the classes several states share one
+    value (legal; validation is about the graph of State objects, not about their values)"""
+    import zlib
+    h = zlib.crc32(repr((d.states, d.events, d.loose)).encode())
+    if h % 4:
+        return None
+    return [("v", "w")[(h >> 3 >> j) & 1] if (h >> 8) & 1 else "v" for j in range(len(d.states))]
 
 
 def _build_meta(d: Defn):
@@ -55,7 +67,9 @@ def _build_meta(d: Defn):
     from statemachine.transition_list import TransitionList
 
     n = len(d.states)
-    S = [State(initial=i, final=f) for i, f in d.states]
+    vals = _values(d)
+    S = [State(initial=i, final=f) if vals is None else State(value=vals[j], initial=i, final=f)
+         for j, (i, f) in enumerate(d.states)]
     styles = iter(d.styles)
 
     def tr(sp):
@@ -86,6 +100,12 @@ def _build_meta(d: Defn):
             k += 1
         if j < n:
             ns[f"s{j}"] = S[j]
+    import zlib
+    if not d.strict and zlib.crc32(repr((d.states, d.events)).encode()) % 8 == 1:
+        # strictness is a property of the class statement, not inherited: a non-strict class derived from an
+        # (abstract) strict base, declared without the keyword
+        base = StateMachineMetaclass("StrictBase", (StateMachine,), {}, strict_states=True)
+        return StateMachineMetaclass("M", (base,), ns)
     return StateMachineMetaclass("M", (StateMachine,), ns, strict_states=d.strict)
 
 
